@@ -284,8 +284,8 @@ Section Move.
 
   (** * spanned and text around a sub-free core parser: exactly the tokens consumed *)
 
-  Theorem spanned_exact f a lx ys c st x s sp v lx' st' : Inv lx ys -> kept (c_filter lx) ys = x :: s ->
-    core0 a = true ->
+  Theorem spanned_exact_of f a lx ys c st x s sp v lx' st' : Inv lx ys -> kept (c_filter lx) ys = x :: s ->
+    (forall lx1 ys1, Inv lx1 ys1 -> tracked lx1 ys1 (run f a lx1 c st)) ->
     run (S f) (GSpanned a) lx c st = (ROk (VSpanned sp v) lx', st') ->
     exists ys' consumed, Inv lx' ys' /\ x :: s = consumed ++ kept (c_filter lx) ys'
       /\ match consumed with
@@ -293,9 +293,9 @@ Section Move.
          | y :: _ => sp = mkspan (e_start y) (e_end (last consumed y)) /\ y = x
          end.
   Proof using Htab Ht.
-    intros HI Hk Ha Hrun.
+    intros HI Hk Htr Hrun.
     destruct (spanned_shape m Htab t Ht f a lx ys c st x s _ st' HI Hk Hrun) as (lx1 & ys1 & HI1 & Hk1 & Hf1 & Hm).
-    pose proof (core0_tracked f a Ha lx1 ys1 c st HI1) as Ht1.
+    pose proof (Htr lx1 ys1 HI1) as Ht1.
     destruct (run f a lx1 c st) as [[v1 l1|e| |] s1]; cbn [tracked] in Ht1; try (destruct Hm as [Hx _]; discriminate Hx).
     destruct Hm as [Hx ->]. injection Hx as -> -> ->.
     destruct Ht1 as (ys' & consumed & HI' & Hf' & Hk' & Hmv).
@@ -327,8 +327,20 @@ Section Move.
       destruct (Nat.ltb_spec (byte (e_end (last (x :: rc) x))) (byte (e_start x))); [lia|reflexivity].
   Qed.
 
-  Theorem text_exact f a lx ys c st x s b e lx' st' : Inv lx ys -> kept (c_filter lx) ys = x :: s ->
+  Theorem spanned_exact f a lx ys c st x s sp v lx' st' : Inv lx ys -> kept (c_filter lx) ys = x :: s ->
     core0 a = true ->
+    run (S f) (GSpanned a) lx c st = (ROk (VSpanned sp v) lx', st') ->
+    exists ys' consumed, Inv lx' ys' /\ x :: s = consumed ++ kept (c_filter lx) ys'
+      /\ match consumed with
+         | [] => byte (sstart sp) = byte (send sp)
+         | y :: _ => sp = mkspan (e_start y) (e_end (last consumed y)) /\ y = x
+         end.
+  Proof using Htab Ht.
+    intros HI Hk Ha. apply (spanned_exact_of f a lx ys c st x s sp v lx' st' HI Hk). intros lx1 ys1 HI1. apply core0_tracked; assumption.
+  Qed.
+
+  Theorem text_exact_of f a lx ys c st x s b e lx' st' : Inv lx ys -> kept (c_filter lx) ys = x :: s ->
+    (forall lx1 ys1, Inv lx1 ys1 -> tracked lx1 ys1 (run f a lx1 c st)) ->
     run (S f) (GText a) lx c st = (ROk (VText b e) lx', st') ->
     exists ys' consumed, Inv lx' ys' /\ x :: s = consumed ++ kept (c_filter lx) ys'
       /\ match consumed with
@@ -336,9 +348,9 @@ Section Move.
          | y :: _ => b = byte (e_start y) /\ e = byte (e_end (last consumed y)) /\ y = x
          end.
   Proof using Htab Ht.
-    intros HI Hk Ha Hrun.
+    intros HI Hk Htr Hrun.
     destruct (text_shape m Htab t Ht f a lx ys c st x s _ st' HI Hk Hrun) as (lx1 & ys1 & HI1 & Hk1 & Hf1 & Hm).
-    pose proof (core0_tracked f a Ha lx1 ys1 c st HI1) as Ht1.
+    pose proof (Htr lx1 ys1 HI1) as Ht1.
     destruct (run f a lx1 c st) as [[v1 l1|e0| |] s1]; cbn [tracked] in Ht1; try (destruct Hm as [Hx _]; discriminate Hx).
     cbn zeta in Hm. destruct Hm as [-> Hm].
     destruct Ht1 as (ys' & consumed & HI' & Hf' & Hk' & Hmv).
@@ -367,5 +379,17 @@ Section Move.
         { apply (stream_progress_in _ _ _ Hb1 Hs1). apply (kept_In (c_filter lx)). rewrite Hk1. right. exact Hins. }
         lia. }
       split; [lia|]. split; reflexivity.
+  Qed.
+
+  Theorem text_exact f a lx ys c st x s b e lx' st' : Inv lx ys -> kept (c_filter lx) ys = x :: s ->
+    core0 a = true ->
+    run (S f) (GText a) lx c st = (ROk (VText b e) lx', st') ->
+    exists ys' consumed, Inv lx' ys' /\ x :: s = consumed ++ kept (c_filter lx) ys'
+      /\ match consumed with
+         | [] => b = e
+         | y :: _ => b = byte (e_start y) /\ e = byte (e_end (last consumed y)) /\ y = x
+         end.
+  Proof using Htab Ht.
+    intros HI Hk Ha. apply (text_exact_of f a lx ys c st x s b e lx' st' HI Hk). intros lx1 ys1 HI1. apply core0_tracked; assumption.
   Qed.
 End Move.
